@@ -142,6 +142,18 @@ func init() {
 				cse.TimeoutMS = 120000
 				cs = append(cs, cse)
 			}
+			// the tick path and the stop path report drops at the same time
+			ndd := 2
+			if tier == "thorough" {
+				ndd = 8
+			}
+			for i := 0; i < ndd; i++ {
+				cse := core.MkCase("C02", "dualdrop", i, seed, map[string]int{"tick": pick(r, 600000, 1500000), "metrics": i % 2})
+				cse.Race = false
+				cse.Procs = pick(r, 4, 16)
+				cse.TimeoutMS = 120000
+				cs = append(cs, cse)
+			}
 			// extreme but legal numbers: limits in the upper half of the uint64 range, ticks beyond 32 bits
 			for i, ex := range []map[string]uint64{
 				{"limit": 1<<63 + 1000, "tick": 3}, {"limit": ^uint64(0), "tick": 3}, {"limit": 1 << 63, "tick": 9},
@@ -202,7 +214,7 @@ func init() {
 			}
 			return cs
 		},
-		Kinds:  map[string]core.RunFunc{"script": c02Script, "hook": c02Hook, "stress": c02Stress, "counter": c02Counter, "run": c02Run, "limitrace": c02LimitRace, "hammer": c02Hammer, "filecancel": c02FileCancel, "filelimit": c02FileLimit, "extremes": c02Extremes},
+		Kinds:  map[string]core.RunFunc{"script": c02Script, "hook": c02Hook, "stress": c02Stress, "counter": c02Counter, "run": c02Run, "limitrace": c02LimitRace, "hammer": c02Hammer, "filecancel": c02FileCancel, "filelimit": c02FileLimit, "extremes": c02Extremes, "dualdrop": c02DualDrop},
 		Floors: map[string]int64{"script_steps": 500, "steps_superseding": 50, "steps_stop_with_pending": 10, "steps_limit_silent": 10, "hook_schedules_formed": 6, "stress_drops": 1000, "porcupine_histories": 400},
 	})
 }
@@ -922,6 +934,9 @@ func c02Run(c *core.Case, o *core.Outcome) {
 		return v
 	}}
 	spec := engine.Spec{Mode: "custom", CustomIntervalUS: p.IvUS, CustomRates: p.Values, Concurrency: p.Conc, MaxDurationMS: 60000, IgnoreDropped: true}
+	// a third of the runs have iteration metrics disabled (the default without a push gateway): the result
+	// accounts for every request all the same
+	spec.NoIterationMetrics = c.Rng("metrics").IntN(3) == 0
 	r := engine.Execute(ctx, spec, l, scenario, hooks, nil)
 	if r.NewErr != nil {
 		o.Inconc("harness: cannot build run: %v", r.NewErr)
@@ -932,7 +947,7 @@ func c02Run(c *core.Case, o *core.Outcome) {
 		sum += v
 	}
 	su, fa, dr := resultCounts(r)
-	desc := fmt.Sprintf("values=%v stopAt=%d c=%d body=%s interval=%dus", p.Values, p.StopAt, p.Conc, p.Body, p.IvUS)
+	desc := fmt.Sprintf("values=%v stopAt=%d c=%d body=%s interval=%dus itermetrics=%v", p.Values, p.StopAt, p.Conc, p.Body, p.IvUS, !spec.NoIterationMetrics)
 	o.Events = started.Load() + int64(l.Len())
 	if int(su+fa+dr) != sum || int64(su+fa) != started.Load() {
 		o.Violate("run-conservation:"+desc, "ticks applied before the stop requested %d iterations; %d started (%d bodies ran) and %d dropped, total %d (%s)", sum, su+fa, started.Load(), dr, su+fa+dr, desc)
@@ -940,7 +955,7 @@ func c02Run(c *core.Case, o *core.Outcome) {
 	}
 	o.AddObs("stress_drops", int64(dr))
 	if dr > 0 {
-		o.Sig("run:c=%d:body=%s:procs=%d", p.Conc, p.Body, c.Procs)
+		o.Sig("run:c=%d:body=%s:procs=%d:itermetrics=%v", p.Conc, p.Body, c.Procs, !spec.NoIterationMetrics)
 	}
 	o.Sample = map[string]any{"case": desc, "requested": sum, "started": su + fa, "dropped": dr}
 }
@@ -1038,6 +1053,67 @@ func c02Hammer(c *core.Case, o *core.Outcome) {
 // c02FileCancel: a config-file run is stopped (cancel or max-duration) while a tick of a rate stage
 // is busy reporting a large superseded backlog as dropped. Whatever the run reports at its end must
 // be final: the dropped count must not move after Do returned.
+// c02DualDrop: one held worker, a tick of n (1 starts, n-1 pending), a second tick of n whose goroutine reports
+// the n-1 superseded requests, and a cancel as soon as that report has begun: the stop path then reports the
+// second tick's n pending requests concurrently. Every request is accounted for exactly once: 1 + (2n-1).
+func c02DualDrop(c *core.Case, o *core.Outcome) {
+	var pp map[string]int
+	c.Params(&pp)
+	n := pp["tick"]
+	gate := make(chan struct{})
+	var started atomic.Int64
+	var env *engine.PoolEnv
+	scenario := func(t *f1testing.T) f1testing.RunFn {
+		return func(t *f1testing.T) {
+			if started.Add(1) == 1 {
+				<-gate
+			}
+		}
+	}
+	env = engine.NewPoolEnv("dualdrop", scenario, 0, nil)
+	env.Metrics.IterationMetricsEnabled = pp["metrics"] == 1
+	ctx, cancel := context.WithCancel(context.Background())
+	defer cancel()
+	pool := env.Manager.NewTriggerPool(1)
+	wctx := pool.Start(ctx)
+	pool.Trigger(wctx, n)
+	if !waitUntil(10*time.Second, func() bool { return started.Load() == 1 }) {
+		close(gate)
+		o.Inconc("first body never started")
+		return
+	}
+	tdone := make(chan struct{})
+	go func() { pool.Trigger(wctx, n); close(tdone) }()
+	// cancel once the second tick has begun to report
+	waitUntil(10*time.Second, func() bool { return env.Stats.Total().DroppedIterationCount > 0 })
+	overlapAt := env.Stats.Total().DroppedIterationCount
+	cancel()
+	<-tdone
+	close(gate)
+	select {
+	case <-env.Manager.WaitForCompletion():
+	case <-time.After(60 * time.Second):
+		o.Inconc("pool did not complete")
+		return
+	}
+	tot := env.Stats.Total()
+	s, d := int64(tot.SuccessfulIterationDurations.Count+tot.FailedIterationDurations.Count), int64(tot.DroppedIterationCount)
+	desc := fmt.Sprintf("two ticks of %d on one held worker, cancel while the second reports (%d reported at cancel), itermetrics=%v", n, overlapAt, pp["metrics"] == 1)
+	o.Events = s + d
+	// the second tick may have been discarded as a whole if it lost the race with cancellation: then 1 + (n-1)
+	full, partial := int64(2*n), int64(n)
+	if s != 1 || (s+d != full && s+d != partial) {
+		o.Violate("dualdrop:"+fmt.Sprint(n), "requested %d (+%d if the second tick was applied): %d started + %d reported dropped = %d; reports from the ticking goroutine and the stop path must both count (%s)", partial, n, s, d, s+d, desc)
+		return
+	}
+	if s+d == full && overlapAt < uint64(n)-1 {
+		o.AddObs("dual_reporting_overlaps", 1)
+		o.Sig("dualdrop:tick=%d:itermetrics=%v", n, pp["metrics"] == 1)
+	}
+	o.AddObs("stress_drops", d)
+	o.Sample = map[string]any{"case": desc, "started": s, "dropped": d}
+}
+
 // c02Extremes: one tick on a pool of 4 idle workers with instant bodies.
 // Far limit, small tick: every request starts (the limit is nowhere near). Small limit, tick beyond 32 bits:
 // exactly `limit` requests start, the rest cannot start solely because of the limit (nothing dropped).
